@@ -429,7 +429,7 @@ def compare(ctx, cases, res, drv, orc):
                 res.violation(kind, "%s: %s" % (h[:160], msg), casej, expected="specification", observed=msg)
 
 
-CERT_LIMIT = {"quick": 90, "thorough": 150}
+CERT_LIMIT = {"quick": 90, "thorough": 125}
 
 
 def check(ctx, replay=None):
